@@ -82,13 +82,32 @@ def h_rejected(ctx, base, follow=True, always_reports=False):
             return
         snap.compare(ctx, rep_before, rep_after, "reports-unchanged-by-rejected-call", key="reports-changed-by-" + key, info=inf)
     if follow and ok:
-        nxt = {"op": "add_comp", "parents": [m.order[0]], "kind": "RLoad", "name": "follow"}
-        e1, e2 = _try(sysobj, nxt), _try(twin, nxt)
-        ctx.check("follow-up-call-behaves-the-same", cond((e1 is None) == (e2 is None)), info=inf)
-        if e1 is None and e2 is None:
-            snap.compare(ctx, snap.snapshot(twin), snap.snapshot(sysobj), "follow-up-state-as-if-never-rejected", info=inf)
-            if always_reports:
-                snap.compare(ctx, hist.reports(twin), hist.reports(sysobj), "follow-up-results-as-if-never-rejected", info=inf)
+        # "later calls behave as if the rejected call had never been made": a fixed follow-up, and - a solver choice - follow-up
+        # SEQUENCES that re-use every identifier the rejected call mentioned and that does not exist (yet): first as the RAIL of a
+        # new component that is then addressed through that rail, then as the NAME of a new component (a rejected call must
+        # not leave anything behind that is keyed by its arguments: negative lookup results, half-made registry entries, ...)
+        root = m.order[0]
+        seqs = [[{"op": "add_comp", "parents": [root], "kind": "RLoad", "name": "follow"}]]
+        known = set(m.order) | set(m.rails().values())
+        ids = [op.get(k) for k in ("target", "name", "rail")] + list(op.get("parents", []))
+        for s_ in dict.fromkeys(i for i in ids if isinstance(i, str) and i and i not in known):
+            seqs.append([{"op": "add_comp", "parents": [root], "kind": "Converter", "name": "follow", "rail": s_},
+                         {"op": "add_comp", "parents": [s_], "kind": "RLoad", "name": "follow2"},
+                         {"op": "set_comp_phases", "target": s_, "conf": []},
+                         {"op": "del_comp", "target": s_, "del_childs": True}])
+            seqs.append([{"op": "add_comp", "parents": [root], "kind": "Converter", "name": s_},
+                         {"op": "add_comp", "parents": [s_], "kind": "RLoad", "name": "follow2"},
+                         {"op": "change_comp", "target": s_, "kind": "LinReg", "name": s_, "rail": "follow3", "variant": 1}])
+        seq = seqs[ctx.choice("follow", len(seqs))] if len(seqs) > 1 else seqs[0]
+        for step, nxt in enumerate(seq):
+            e1, e2 = _try(sysobj, nxt), _try(twin, nxt)
+            inf2 = {**inf, "follow_up": [_opinfo(o) for o in seq[:step + 1]], "after_rejected": repr(e1)[:120], "never_rejected": repr(e2)[:120]}
+            same = ctx.check("follow-up-call-behaves-the-same", cond((e1 is None) == (e2 is None) and type(e1) is type(e2)), info=inf2)
+            if not same:
+                return
+            snap.compare(ctx, snap.snapshot(twin), snap.snapshot(sysobj), "follow-up-state-as-if-never-rejected", info=inf2)
+        if always_reports:
+            snap.compare(ctx, hist.reports(twin), hist.reports(sysobj), "follow-up-results-as-if-never-rejected", info=inf)
 
 
 def h_final_structure(ctx, base, nsym=1, permute=0):
